@@ -120,6 +120,16 @@ def dep_decoders(f, acc=None):
     return acc
 
 
+def has_list(f):
+    if isinstance(f, dict):
+        if f.get("k") == "list":
+            return True
+        return any(has_list(v) for v in f.values())
+    if isinstance(f, (list, tuple)):
+        return any(has_list(v) for v in f)
+    return False
+
+
 def has_free_varbytes(f):
     """does the format contain a length-prefixed byte block whose content is free (not a checked dependency blob)?"""
     if isinstance(f, dict):
@@ -131,7 +141,7 @@ def has_free_varbytes(f):
     return False
 
 
-def gen_value(f, rng, pool, fields=None, small=False, big=False):
+def gen_value(f, rng, pool, fields=None, small=False, big=False, longlist=None):
     k = f["k"]
     if k == "uint":
         m = 2 ** (8 * f["w"])
@@ -161,17 +171,23 @@ def gen_value(f, rng, pool, fields=None, small=False, big=False):
         n = rng.choice([0, 0, 1, 2, 3] + ([5] if heavy else [0xfc, 0xfd, 300]))
         if big and n == 0:
             n = 1
+        if longlist and longlist.get("left", 0) > 0 and not dep_decoders(f["elem"]):
+            # (not a list of dependency blobs: each needs its own oracle round to be located)
+            # one list of the value gets just over the 1024 elements readers pre-allocate at most
+            longlist["left"] -= 1
+            n = rng.choice([1025, 1025, 1031, 1024 + 1024 + 1])
+            return ("l", [gen_value(f["elem"], rng, pool, fields, small=True) for i in range(n)])
         return ("l", [gen_value(f["elem"], rng, pool, fields, small=True, big=big and i == n - 1) for i in range(n)])
     if k == "listof":
         ref = lookup_path(fields or [], f["path"])
         n = len(ref[1]) if ref and ref[0] == "l" else 0
         return ("l", [gen_value(f["elem"], rng, pool, fields, small=True) for _ in range(n)])
     if k == "opt":
-        return ("o", gen_value(f["elem"], rng, pool, fields, small, big) if (big or rng.chance(1, 2)) else None)
+        return ("o", gen_value(f["elem"], rng, pool, fields, small, big, longlist) if (big or longlist or rng.chance(1, 2)) else None)
     if k == "struct":
         fs = []
         for name, ff in f["fields"]:
-            fs.append((name, gen_value(ff, rng, pool, fs, small, big)))
+            fs.append((name, gen_value(ff, rng, pool, fs, small, big, longlist)))
         return ("s", fs)
     if k == "opaque":
         return ("b", rng.choice(pool[f["name"]]))
